@@ -198,6 +198,24 @@ func snapshotIsFresh(c *Ctx, r *Report, rule string, owner string) {
 				if _, isP := o.(*ssa.Parameter); isP {
 					bad = "a parameter"
 				}
+				// bytes of a buffer: the buffer itself must be local to this activation
+				if cl, isC := o.(*ssa.Call); isC && len(cl.Call.Args) > 0 && typeName(cl.Call.Args[0].Type()) == "Buffer" {
+					for _, bo := range origins(cl.Call.Args[0], originOpt{}) {
+						switch y := strip(bo).(type) {
+						case *ssa.Alloc:
+						case *ssa.Call:
+							if id := callID(&y.Call); !(id.Pkg == "bytes" && strings.HasPrefix(id.Name, "NewBuffer")) {
+								bad = "a buffer obtained from " + id.String() + " (shared with whoever gets it next)"
+							}
+						default:
+							if fld := fieldOfValue(bo); fld != nil {
+								bad = "a buffer kept in field " + fieldLabel(fld)
+							} else if g := globalOf(bo); g != nil {
+								bad = "a package-level buffer " + g.Name()
+							}
+						}
+					}
+				}
 			}
 			cons := fmt.Sprintf("success-return#%d", k)
 			if bad != "" {
